@@ -202,18 +202,12 @@ parsed_line_hook(kdump_ctx_t *ctx, struct attr_data *lineattr,
 
 	if (!strcmp(type, "SYMBOL")) {
 		num = strtoull(attr_value(lineattr)->string, &p, 16);
-		if (*p)
-			/* invalid format -> ignore */
-			return KDUMP_OK;
 		tmpl.type = KDUMP_ADDRESS;
 	} else if (!strcmp(type, "LENGTH") ||
 		   !strcmp(type, "NUMBER") ||
 		   !strcmp(type, "OFFSET") ||
 		   !strcmp(type, "SIZE")) {
 		num = strtoull(attr_value(lineattr)->string, &p, 0);
-		if (*p)
-			/* invalid format -> ignore */
-			return KDUMP_OK;
 		if (!strcmp(type, "NUMBER") && !strcmp(sym, "phys_base"))
 			tmpl.ops = &phys_base_ops;
 		tmpl.type = KDUMP_NUMBER;
@@ -221,6 +215,14 @@ parsed_line_hook(kdump_ctx_t *ctx, struct attr_data *lineattr,
 		return KDUMP_OK;
 
 	sym[-1] = '.';
+	if (*p) {
+		/* invalid format -> ignore the line, but a value derived
+		 * from an earlier line with the same key is stale now */
+		attr = lookup_dir_attr(ctx->dict, dir, key, strlen(key));
+		if (attr && attr->template->type == tmpl.type)
+			clear_attr(ctx, attr);
+		return KDUMP_OK;
+	}
 	attr = create_attr_path(ctx->dict, dir, key, strlen(key), &tmpl);
 	if (!attr)
 		return set_error(ctx, KDUMP_ERR_SYSTEM,
